@@ -490,6 +490,94 @@ METHOD_TYPE = MethodTypeModel()
 
 
 # --------------------------------------------------------------------------- builtins
+class _NotConcrete(Exception):
+    pass
+
+
+def py_repr(interp, x):
+    """repr(x): a concrete str when every part is concrete (interpreted __repr__ methods are called), else Opaque"""
+    I = _interp_mod()
+    if isinstance(x, (str, int, float, bool, type(None), bytes)):
+        return repr(x)
+    if isinstance(x, I.Inst):
+        m = x._special('__repr__')
+        if m is not None:
+            return interp.call(m, [], [])
+        return '<%s object at %#x>' % (x._cls.name, id(x))      # object.__repr__: distinct per object
+    if isinstance(x, (list, tuple)) and not hasattr(x, '_fields'):
+        ps = [py_repr(interp, e) for e in x]
+        if not all(isinstance(p, str) for p in ps):
+            return Opaque()
+        if isinstance(x, tuple):
+            return '(' + ', '.join(ps) + (',' if len(ps) == 1 else '') + ')'
+        return '[' + ', '.join(ps) + ']'
+    if isinstance(x, SymDict):
+        ps = [(py_repr(interp, k), py_repr(interp, v)) for k, v in x.items_]
+        if not all(isinstance(a, str) and isinstance(b, str) for a, b in ps):
+            return Opaque()
+        return '{' + ', '.join('%s: %s' % p for p in ps) + '}'
+    return Opaque()
+
+
+def py_str(interp, x):
+    I = _interp_mod()
+    if isinstance(x, str):
+        return x
+    if isinstance(x, (int, float, bool, type(None))):
+        return str(x)
+    if isinstance(x, I.Inst):
+        m = x._special('__str__')
+        if m is not None:
+            return interp.call(m, [], [])
+        return py_repr(interp, x)
+    if isinstance(x, (list, tuple, SymDict)):
+        return py_repr(interp, x)
+    return Opaque()
+
+
+def str_format(interp, template, args, kwargs):
+    """str.format: concrete when the template and every converted argument is concrete, else an opaque string
+    (the interpreted __repr__/__str__ of every argument still run, as in CPython)"""
+    class Px:
+        def __init__(self, v):
+            self.v = v
+
+        def __repr__(self):
+            r = py_repr(interp, self.v)
+            if not isinstance(r, str):
+                raise _NotConcrete()
+            return r
+
+        def __str__(self):
+            r = py_str(interp, self.v)
+            if not isinstance(r, str):
+                raise _NotConcrete()
+            return r
+
+        def __format__(self, spec):
+            if spec:
+                raise _NotConcrete()
+            return self.__str__()
+
+        def __getattr__(self, name):
+            return Px(interp.getattr_(self.v, name))
+    try:
+        return template.format(*[Px(a) for a in args], **{k: Px(v) for k, v in kwargs.items()})
+    except _NotConcrete:
+        return Opaque()
+    except (IndexError, KeyError) as e:
+        raise PyExc(type(e), e.args)
+
+
+def str_join(interp, sep, it):
+    parts = [x for x in interp.iter_(it)]
+    if all(isinstance(p, str) for p in parts):
+        return sep.join(parts)
+    if all(isinstance(p, (str, Opaque)) for p in parts):
+        return Opaque()
+    raise PyExc(TypeError, ('sequence item: expected str instance',))
+
+
 def make_builtins(interp):
     I = _interp_mod()
 
@@ -620,16 +708,10 @@ def make_builtins(interp):
         raise EngineLimit('super() arity')
 
     def b_str(x=''):
-        if isinstance(x, str):
-            return x
-        if isinstance(x, I.Inst):
-            m = x._special('__str__')
-            if m is not None:
-                interp.call(m, [], [])
-        return Opaque()
+        return py_str(interp, x)
 
     def b_repr(x):
-        return Opaque()
+        return py_repr(interp, x)
 
     def b_list(x=()):
         return TList(interp.iter_(x))
@@ -694,8 +776,13 @@ def make_builtins(interp):
 
     def b_sorted(x, **k):
         l = list(interp.iter_(x))
+        if k:
+            raise EngineLimit('sorted() with key/reverse')
         if all(isinstance(e, (str, int)) for e in l):
             return TList(sorted(l))
+        firsts = [e[0] for e in l if isinstance(e, tuple) and e and isinstance(e[0], (str, int))]
+        if len(firsts) == len(l) and len(set(firsts)) == len(firsts):
+            return TList(sorted(l, key=lambda e: e[0]))      # decided by the distinct concrete first components
         raise EngineLimit('sorted() on symbolic values')
 
     def b_range(*a):
